@@ -5,28 +5,30 @@ Local Open Scope N_scope.
 
 Lemma gen_const_expected m c :
   wf_const m c = true ->
-  match gen_const c with
+  match gen_const m c with
   | Some k => expected_const m c = ESome k /\ const_wt k = true
   | None => expected_const m c = ENone
   end.
 Proof.
   unfold wf_const, gen_const, expected_const. destruct (c_name c) as [n|]; [|reflexivity].
   destruct (get_inner m (c_ty c)) as [i|]; [|discriminate].
-  destruct (c_init c) as [l|].
+  destruct (c_init c) as [l| |].
   - destruct i; try discriminate. unfold lit_matches, prim_of_scalar.
     destruct s as [k w]. cbn [sk sw].
     destruct l, k; cbn; try discriminate; destruct_match_vars; try discriminate; intros _; split; reflexivity.
+  - destruct i; try reflexivity. unfold literal_zero, prim_of_scalar. destruct s as [k w]. cbn [sk sw].
+    destruct k; cbn; try discriminate; destruct_match_vars; try discriminate; intros _; split; reflexivity.
   - destruct i; try discriminate; reflexivity.
 Qed.
 
 Lemma consts_expected m cs :
   forallb (wf_const m) cs = true ->
-  expected_consts m cs = Some (filter_map gen_const cs) /\ forallb const_wt (filter_map gen_const cs) = true.
+  expected_consts m cs = Some (filter_map (gen_const m) cs) /\ forallb const_wt (filter_map (gen_const m) cs) = true.
 Proof.
   induction cs as [|c t IH]; intros Hwf; [split; reflexivity|].
   cbn [forallb] in Hwf. apply andb_true_iff in Hwf as [Hc Ht]. destruct (IH Ht) as [IH1 IH2].
   pose proof (gen_const_expected m c Hc) as H. cbn [expected_consts filter_map].
-  destruct (gen_const c) as [k|].
+  destruct (gen_const m c) as [k|].
   - destruct H as [-> Hk]. rewrite IH1. split; [reflexivity|]. cbn. rewrite Hk, IH2. reflexivity.
   - rewrite H. auto.
 Qed.
